@@ -267,6 +267,22 @@ class Partial:
 
 
 @dataclass(eq=False)
+class CtxGen:
+    """Result of calling a generator function decorated with contextlib.contextmanager: its body runs when a `with` statement enters it."""
+
+    fi: FuncInfo
+    args: list
+    kwargs: dict
+    closure: "Frame | None"
+
+
+class DDict(dict):
+    """collections.defaultdict: a dict whose missing keys are created by `factory`."""
+
+    factory: Any = None
+
+
+@dataclass(eq=False)
 class Closure:
     node: ast.AST  # Lambda or nested FunctionDef
     frame: "Frame"
@@ -453,6 +469,7 @@ class InterpBase:
         self.modconst: dict[tuple[str, str], Any] = {}
         self.ext_objs: list[ExtObj] = []
         self.open: dict[int, OpenInfo] = {}  # id(container) -> OpenInfo (the container is kept alive by the entry)
+        self.ctx_bodies: list = []  # bodies of the `with` statements that are entering a generator context manager
         self.iter_origins: list = []  # (open collection name, member) of the enclosing iterations over known members
         self.active: list = []  # keys of the repo functions / closures being interpreted (recursion)
         self.while_frames: list = []  # [frame, number of oracle decisions on an exit in the current iteration] per active while loop
